@@ -8,7 +8,7 @@ from .c05 import env_of
 
 PLAN = {
     "quick": {"shards": 8, "cases": 150, "min_nontrivial": 600, "budget_s": 300},
-    "thorough": {"shards": 16, "cases": 500, "min_nontrivial": 4000, "budget_s": 1700},
+    "thorough": {"shards": 16, "cases": 1500, "min_nontrivial": 8400, "budget_s": 1500},
 }
 LEVEL = "fault_enumeration"
 RULE = ("a case is a schema (secrets aes/xor/best, challenge, bytes, containers, nesting, config types, untyped "
